@@ -1,1 +1,2 @@
-// harnesses
+// (no harness: TracerInner::new builds the shared State — HashMap/IndexMap/RwLock — which is outside
+// what CBMC encodes within reach; make_strategy_config is a field-by-field copy, read not encoded)
